@@ -188,10 +188,10 @@ fn put_mutable_rules(fix_prev: Option<bool>, fix_cas: Option<bool>) {
 
 
 //@ ob: C04.O1
-//@ rss: 10.5
-//@ time: 994
 //@ tier: thorough
 //@ cap: 2400
+//@ rss: 8
+//@ time: 360
 //@ standins: tracing lru vcoll
 //@ also: C03
 //@ desc: one put_mutable against a store holding nothing or one item for the target (seq0): the stored seq never decreases; cas present and != seq0 => 301; seq < seq0 => 302; invalid signature or target != SHA1(k||salt) => 206; bad token => 203; every error leaves the stored item unchanged; otherwise the put's (seq, value) is stored and acknowledged; equal seq (the same item again) is accepted
@@ -419,6 +419,8 @@ fn c04_o6_capacity_one_eviction() {
 //@ ob: C03.O1
 //@ tier: thorough
 //@ cap: 2400
+//@ rss: 10
+//@ time: 912
 //@ standins: tracing lru vcoll
 //@ also: C15
 //@ desc: put_immutable: the value is stored only if the token validates for the sender's IP (current or previous secret), len(v) <= 1000 and hash(v) = target; reply 203 for a bad token or hash mismatch, ack otherwise; an error leaves the store unchanged; the stored bytes are the request's bytes
@@ -479,7 +481,9 @@ fn c03_o1_put_immutable() {
 
 //@ ob: C03.O3
 //@ tier: thorough
-//@ cap: 2400
+//@ cap: 2700
+//@ rss: 10
+//@ time: 1061
 //@ standins: tracing lru vcoll
 //@ also: C15
 //@ desc: announce_peer: a peer is recorded only with a valid token, as the sender's own IP with the explicit port, or the sender's source port iff implied_port is Some(true); 203 and nothing recorded otherwise
@@ -538,7 +542,9 @@ fn c03_o3_announce_peer() {
 
 //@ ob: C03.O4
 //@ tier: thorough
-//@ cap: 2400
+//@ cap: 3000
+//@ rss: 10
+//@ time: 1195
 //@ standins: tracing lru vcoll
 //@ also: C15
 //@ desc: announce_signed_peer: the announcement is stored only with a valid token and when from_dht_request accepts it (signature verifies and |now - t| <= 45 s: leaf C03.O4p); 203 and nothing stored otherwise; the stored record carries the request's (k, t, sig)
@@ -654,10 +660,10 @@ fn h_any(_v: &[u8]) -> [u8; 20] {
 }
 
 //@ ob: C03.O7
-//@ rss: 3.4
-//@ time: 482
 //@ tier: thorough
 //@ cap: 2400
+//@ rss: 6
+//@ time: 485
 //@ standins: tracing lru vcoll
 //@ desc: size boundaries with a valid token: an immutable value of 1001 bytes is refused with 205 and one of 1000 bytes passes the size check; a mutable value of 1001 bytes => 205, salt of 65 bytes => 207, 1000 / 64 pass; refused requests store nothing
 //@ bounds: concrete lengths 1000/1001 (value) and 64/65 (salt), concrete contents; hash is an arbitrary pre-drawn digest (uninterpreted); contract verdicts true; capacity 1; unwind 26
